@@ -104,6 +104,11 @@ func (v *VLANAllocator) AllocateWithSTag(nteID string, sTag uint16) (*VLANAlloca
 	v.mu.Lock()
 	defer v.mu.Unlock()
 
+	// The requested S-TAG must lie in the configured range (the search never looks outside it)
+	if sTag < v.config.STagRange.Start || sTag > v.config.STagRange.End {
+		return nil, fmt.Errorf("S-TAG %d outside configured range [%d-%d]", sTag, v.config.STagRange.Start, v.config.STagRange.End)
+	}
+
 	// Check if already allocated
 	if alloc, ok := v.allocations[nteID]; ok {
 		if alloc.STag == sTag {
